@@ -137,4 +137,12 @@ theorem text_JWKCache_GetJWKS_ok : Oidc.Shapes.Text_JWKCache_GetJWKS := by unfol
 theorem text_jwkToPEM_ok : Oidc.Shapes.Text_jwkToPEM := by unfold Oidc.Shapes.Text_jwkToPEM; rfl
 theorem text_TraefikOidc_VerifyJWTSignatureAndClaims_ok : Oidc.Shapes.Text_TraefikOidc_VerifyJWTSignatureAndClaims := by unfold Oidc.Shapes.Text_TraefikOidc_VerifyJWTSignatureAndClaims; rfl
 
+
+/-! ## Program text of the helpers these theorems also rest on (constructors, accessors, token endpoint, configuration) -/
+theorem text_TraefikOidc_updateMetadataEndpoints_ok : Oidc.Shapes.Text_TraefikOidc_updateMetadataEndpoints := by unfold Oidc.Shapes.Text_TraefikOidc_updateMetadataEndpoints; rfl
+theorem text_TraefikOidc_verifyToken_ok : Oidc.Shapes.Text_TraefikOidc_verifyToken := by unfold Oidc.Shapes.Text_TraefikOidc_verifyToken; rfl
+theorem text_fetchJWKS_ok : Oidc.Shapes.Text_fetchJWKS := by unfold Oidc.Shapes.Text_fetchJWKS; rfl
+theorem text_rsaJWKToPEM_ok : Oidc.Shapes.Text_rsaJWKToPEM := by unfold Oidc.Shapes.Text_rsaJWKToPEM; rfl
+theorem text_ecJWKToPEM_ok : Oidc.Shapes.Text_ecJWKToPEM := by unfold Oidc.Shapes.Text_ecJWKToPEM; rfl
+
 end Oidc.Props.C02
